@@ -186,3 +186,121 @@ def exec_engine(prop, tier, replay, t0):
 
 for _p in EXEC:
     ENGINES[_p] = exec_engine
+
+
+# ---------------------------------------------------------------------------------------------
+# ZogPools engine: C07 (call histories), C08 (goroutines)
+# ---------------------------------------------------------------------------------------------
+POOL_SW = ['SwResetCtxMap', 'SwResetFmter', 'SwResetErrs', 'SwResetFlags', 'SwCoerceResetsParams', 'SwTestResetsMsg',
+           'SwCoerceResetsMsg', 'SwCollectOncePerIssue']
+POOL_KINDS = '{"plain", "ctxval", "probectx", "fail1", "fmtopt", "fail2", "coerce", "custom", "catch"}'
+
+
+def pool_consts(procs='{1}', maxcalls=2, kinds=POOL_KINDS, maxobj=4, extra=None):
+    c = {'Procs': procs, 'MaxObj': str(maxobj), 'MaxCalls': str(maxcalls), 'Kinds': kinds}
+    for s in POOL_SW:
+        c[s] = 'TRUE'
+    if extra:
+        c.update(extra)
+    return c
+
+
+def build_race_harness():
+    out = vlib.BUILD + '/zogverif-race'
+    r = vlib.subprocess.run(['go', 'build', '-race', '-tags', 'verif', '-o', out, '.'], cwd=vlib.VERIF + '/harness', env=dict(vlib.GOENV, CGO_ENABLED='1'),
+                            capture_output=True, text=True)
+    if r.returncode != 0:
+        raise Inconclusive('race build failed:\n' + r.stdout + r.stderr)
+    return out
+
+
+def pools_engine(prop, tier, replay, t0):
+    vlib.build_harness()
+    d = vlib.scratch('pools.')
+    trace = os.path.join(d, 'pooltrace.ndjson')
+    thorough = tier == 'thorough'
+    race = None
+    if prop == 'C07':
+        # (A) all call histories x all pool hand-offs x GC drops
+        mc = vlib.run_tlc('ZogPools', vlib.cfg_text(pool_consts(maxcalls=3 if thorough else 2), invariants=['NoStaleRead', 'ExclusiveOwner'], view='View'),
+                          workers=16, timeout=3600)
+        vlib.tlc_ok(mc, 'ZogPools/histories')
+        mc_desc = 'ZogPools Procs={1} MaxCalls=%d all call kinds; invariants NoStaleRead, ExclusiveOwner' % (3 if thorough else 2)
+        # (B) every history of bounded length, emitted by TLC, replayed on the real library, then every call kind probed
+        g = vlib.run_tlc('Gen_Pools', vlib.cfg_text(pool_consts(extra={'CasesFile': '"cases.ndjson"', 'HistLen': '3' if thorough else '2'}), init='GenInit', next_='GenNext'),
+                         workers=1, timeout=600)
+        vlib.tlc_ok(g, 'Gen_Pools')
+        hist = os.path.join(g['dir'], 'cases.ndjson')
+        if replay:
+            hist = replay
+        st = vlib.harness(['pools', '-histories', hist, '-random', '0' if replay else ('4000' if thorough else '300'), '-maxlen', '6',
+                           '-seed', str(vlib.seed()), '-out', trace])
+    else:
+        kinds = '{"ctxval", "probectx", "fail2", "coerce", "catch"}' if thorough else '{"ctxval", "fail2", "catch"}'
+        mc = vlib.run_tlc('ZogPools', vlib.cfg_text(pool_consts(procs='{1, 2}', maxcalls=1, kinds=kinds), invariants=['NoStaleRead', 'ExclusiveOwner'], view='View'),
+                          workers=16, timeout=3600)
+        vlib.tlc_ok(mc, 'ZogPools/interleavings')
+        mc_desc = 'ZogPools Procs={1,2} MaxCalls=1 Kinds=%s: every interleaving of pool operations; invariants NoStaleRead, ExclusiveOwner' % kinds
+        st = vlib.harness(['pools', '-concurrent', '4', '-episodes', '400' if thorough else '60', '-calls', '3', '-seed', str(vlib.seed()), '-out', trace])
+        # the Go memory model is outside TLA+: the same episodes, free-running, under the race detector
+        rb = build_race_harness()
+        rr = vlib.subprocess.run([rb, 'pools', '-concurrent', '8', '-episodes', '600' if thorough else '80', '-calls', '4', '-seed', str(vlib.seed()),
+                                  '-out', os.path.join(d, 'race.ndjson')], capture_output=True, text=True, env=dict(vlib.GOENV, GORACE='halt_on_error=0'))
+        race = dict(rc=rr.returncode, reports=rr.stderr.count('WARNING: DATA RACE'))
+        if rr.returncode != 0 and race['reports'] == 0:
+            raise Inconclusive('race run failed: ' + rr.stderr[-2000:])
+        # results of the race run are validated too
+        if os.path.exists(os.path.join(d, 'race.ndjson')):
+            with open(trace, 'a') as f:
+                f.write(open(os.path.join(d, 'race.ndjson')).read())
+    consts = pool_consts(maxcalls=0, kinds='{}', maxobj=max(8, st.get('maxid', 8) + 2, 64 if prop == 'C08' else 0))
+    cfg = vlib.cfg_text(dict(consts, TraceFile='"trace.ndjson"', VerdictFile='"verdicts.ndjson"'), init='TraceInit', next_='TraceNext')
+    res = vlib.run_tlc('Trace_Pools', cfg, workers=1, timeout=3600, files={'trace.ndjson': trace})
+    vf = os.path.join(res['dir'], 'verdicts.ndjson')
+    if not os.path.exists(vf):
+        raise Inconclusive('Trace_Pools produced no verdicts\n' + res['out'][-4000:])
+    verdicts = [json.loads(l) for l in open(vf) if l.strip()]
+    if not verdicts or verdicts[-1]['prop'] != 'END':
+        raise Inconclusive('Trace_Pools stopped early')
+    verdicts = verdicts[:-1]
+    viol = verdicts
+    rc = 0
+    lines = open(trace).read().splitlines()
+    if viol or (race and race['reports']):
+        os.makedirs(vlib.REPLAY, exist_ok=True)
+        seen = set()
+        for v in viol[:5]:
+            if v['id'] in seen:
+                continue
+            seen.add(v['id'])
+            path = '%s/%s-%s.ndjson' % (vlib.REPLAY, prop, v['id'])
+            # the episode's events (reset .. next reset)
+            start = max(i for i in range(min(v['line'], len(lines))) if lines[i].startswith('{"e":"reset"'))
+            end = next((i for i in range(start + 1, len(lines)) if lines[i].startswith('{"e":"reset"')), len(lines))
+            with open(path, 'w') as f:
+                f.write('\n'.join(lines[start:end]) + '\n')
+            print('VIOLATION property=%s replay=%s' % (prop, path))
+            log('  verdict: %s %s line %s: %s' % (v['prop'], v['kind'], v['line'], json.dumps(v['detail'])[:700]))
+        if race and race['reports']:
+            path = '%s/%s-race.txt' % (vlib.REPLAY, prop)
+            open(path, 'w').write(rr.stderr)
+            print('VIOLATION property=%s replay=%s' % (prop, path))
+            log('  the Go race detector reported %d data race(s)' % race['reports'])
+        rc = 1
+    if not replay:
+        cov = dict(states=mc['distinct'], transitions=mc['generated'], traces_validated_against_impl=st['stats'].get('histories', st['stats'].get('episodes', 0)),
+                   trace_events=st['events'], probes=st['stats'].get('probes', 0), evaluations=st['stats'].get('probes', 0), distinct_nontrivial=st['distinct'],
+                   rule='C07: every call history of length <= %s over the model alphabet (emitted by TLC) plus seeded random histories over 14 call kinds, each followed by a probe of every call kind whose full '
+                        'projected result (issue fields, destination, ctx.Get snapshot) must equal the same call on cleared pools; C08: goroutines running random calls on shared package-level schemas, '
+                        'every result compared with the sequential result; all Get/Put events validated by TLC against the ownership discipline. distinct = distinct histories / plans' % ('3' if thorough else '2'),
+                   samples=st['samples'], mc_config=mc_desc, tlc_trace_states=res['distinct'], race_detector=race, exhaustive=(prop == 'C07'))
+        vlib.write_evidence(prop, tier, 'model_checking', cov,
+                            ['sync.Pool is modelled as a bag from which Get may take any element or a fresh object; per-P caches are not modelled',
+                             'GC is disabled while tracing so that object addresses identify objects',
+                             'data-race freedom (Go memory model) is observed with the race detector on the executions driven, not proved'],
+                            time.time() - t0, len(viol) + (race['reports'] if race else 0))
+    return rc
+
+
+ENGINES['C07'] = pools_engine
+ENGINES['C08'] = pools_engine
